@@ -1,3 +1,726 @@
+import LachesisVerif.Model.Semaphore
+/-!
+# C30 — Events semaphore bounds, waits and times out correctly
+
+"The events semaphore never lets the held amount exceed its capacity, grants a fitting request
+immediately or as soon as enough is released, and refuses a request that exceeds the capacity or
+is still unsatisfied when its timeout expires, returning shortly after the timeout. After
+termination every non-empty request is refused and blocked callers return, and an over-release
+resets the held amount to zero and is reported."
+
+Model: `Model.Semaphore` — uint32/uint64 amounts with the wrap-around arithmetic and every
+condition of `tryAcquire`, `Release` and the `Acquire` loop regenerated from the source; blocked
+callers are waiters on a logical clock; the scheduler's wake order at a `Release` is an arbitrary
+input. All trace theorems hold for **every** operation sequence from `new cap` (any amounts, also
+outside the uint ranges; any timeouts; any wake orders).
+
+"Capacity" is the configured one (`cap0`): `Terminate` zeroes `maxProcessing`, after which the
+held amount may exceed the *current* bound but never the configured one.
+*Partial by nature*: "returning shortly after the timeout" is real time; the theorems place the
+return exactly at the deadline of the logical clock, the stream `semtimed` checks
+`timeout ≤ elapsed ≤ 2·timeout + 200 ms` on the real code.
+-/
 namespace C30
-theorem stub : True := trivial
+open Model.Semaphore
+
+/-- within the uint32 / uint64 ranges of dag.Metric -/
+def InRange (m : Metric) : Prop := m.num < 4294967296 ∧ m.size < 18446744073709551616
+
+/-- componentwise ≤ -/
+def Le (a b : Metric) : Prop := a.num ≤ b.num ∧ a.size ≤ b.size
+
+/-- the request fits: true sums (unbounded naturals) within the bound -/
+def Fits (held cap m : Metric) : Prop := held.num + m.num ≤ cap.num ∧ held.size + m.size ≤ cap.size
+
+instance (held cap m : Metric) : Decidable (Fits held cap m) := by unfold Fits; infer_instance
+
+def madd (a b : Metric) : Metric := ⟨a.num + b.num, a.size + b.size⟩
+
+theorem Le.trans {a b c : Metric} (h1 : Le a b) (h2 : Le b c) : Le a c :=
+  ⟨Nat.le_trans h1.1 h2.1, Nat.le_trans h1.2 h2.2⟩
+
+theorem Le.refl (a : Metric) : Le a a := ⟨Nat.le_refl _, Nat.le_refl _⟩
+
+theorem inRange_of_le {a b : Metric} (h : Le a b) (hb : InRange b) : InRange a :=
+  ⟨Nat.lt_of_le_of_lt h.1 hb.1, Nat.lt_of_le_of_lt h.2 hb.2⟩
+
+theorem not_fits_mono {h h' cap m : Metric} (hle : Le h h') (hn : ¬ Fits h cap m) : ¬ Fits h' cap m := by
+  unfold Fits Le at *; omega
+
+/-! ## the decision kernels -/
+
+/-- `tryAcquire` (with the overflow guard) grants exactly the requests whose true sums fit, and
+then adds exactly the amount — for held amounts and bounds in the uint ranges and **any** request,
+also one that would wrap. -/
+theorem tryAcquire_eq (held cap m : Metric) (hh : InRange held) (hc : InRange cap) :
+    tryAcquire held cap m = if Fits held cap m then some (madd held m) else none := by
+  unfold tryAcquire Gen.Semaphore.addNum Gen.Semaphore.addSize Gen.Semaphore.overflowCond Gen.Semaphore.exceedsCond
+  unfold InRange at hh hc
+  simp only [Bool.or_eq_true, decide_eq_true_eq]
+  by_cases hf : Fits held cap m
+  · rw [if_pos hf]
+    unfold Fits at hf
+    have e1 : (held.num + m.num) % 4294967296 = held.num + m.num := Nat.mod_eq_of_lt (by omega)
+    have e2 : (held.size + m.size) % 18446744073709551616 = held.size + m.size := Nat.mod_eq_of_lt (by omega)
+    rw [e1, e2, if_neg (by omega), if_neg (by omega)]
+    rfl
+  · rw [if_neg hf]
+    unfold Fits at hf
+    split
+    · rfl
+    · next h1 =>
+      rw [if_pos]
+      omega
+
+/-- one iteration of the Acquire loop -/
+theorem attempt_eq (st : State) (m : Metric) (d : Nat) (hh : InRange st.held) (hc : InRange st.cap) :
+    attempt st m d =
+      if Fits st.held st.cap m then ({ st with held := madd st.held m }, some true)
+      else if m.size > st.cap.size ∨ m.num > st.cap.num ∨ d ≤ st.now then (st, some false)
+      else (st, none) := by
+  unfold attempt
+  rw [tryAcquire_eq _ _ _ hh hc]
+  by_cases hf : Fits st.held st.cap m
+  · simp [hf, Gen.Semaphore.acquireLoop]
+  · simp only [hf, if_false, Gen.Semaphore.acquireLoop, Gen.Semaphore.acquireGiveUp, Option.isSome_none,
+      Bool.not_false, if_true, Bool.or_eq_true, decide_eq_true_eq]
+    by_cases hg : m.size > st.cap.size ∨ m.num > st.cap.num ∨ d ≤ st.now
+    · rw [if_pos hg, if_pos (by omega)]
+    · rw [if_neg hg, if_neg (by omega)]
+
+/-! ## step-level clauses -/
+
+/-- **A fitting request is granted at once** (Acquire with any timeout), and the held amount grows
+by exactly the request. -/
+theorem fitting_granted_at_once (st : State) (id : Nat) (m : Metric) (t : Nat)
+    (hh : InRange st.held) (hc : InRange st.cap) (hf : Fits st.held st.cap m) :
+    acquire st id m t = ({ st with held := madd st.held m }, [.ret id true]) := by
+  unfold acquire; rw [attempt_eq _ _ _ hh hc, if_pos hf]
+
+/-- TryAcquire succeeds exactly when the request fits -/
+theorem tryAcq_iff (st : State) (id : Nat) (m : Metric) (hh : InRange st.held) (hc : InRange st.cap) :
+    tryAcq st id m = if Fits st.held st.cap m then ({ st with held := madd st.held m }, [.ret id true])
+      else (st, [.ret id false]) := by
+  unfold tryAcq; rw [tryAcquire_eq _ _ _ hh hc]
+  by_cases hf : Fits st.held st.cap m <;> simp [hf]
+
+/-- **A request above the capacity is refused** at once, whatever its timeout; nothing changes. -/
+theorem above_capacity_refused (st : State) (id : Nat) (m : Metric) (t : Nat)
+    (hh : InRange st.held) (hc : InRange st.cap) (hm : m.num > st.cap.num ∨ m.size > st.cap.size) :
+    acquire st id m t = (st, [.ret id false]) := by
+  unfold acquire
+  rw [attempt_eq _ _ _ hh hc, if_neg (by unfold Fits; omega), if_pos (by omega)]
+
+/-- a request that neither fits nor exceeds the capacity waits (positive timeout) -/
+theorem waits_otherwise (st : State) (id : Nat) (m : Metric) (t : Nat)
+    (hh : InRange st.held) (hc : InRange st.cap) (hf : ¬ Fits st.held st.cap m) (hm : Le m st.cap) (ht : 0 < t) :
+    acquire st id m t = ({ st with waiters := st.waiters ++ [⟨id, m, st.now + t⟩] }, []) := by
+  unfold acquire
+  unfold Le at hm
+  rw [attempt_eq _ _ _ hh hc, if_neg hf, if_neg (by omega)]
+
+/-- **Over-release resets the held amount to zero and is reported**; a release within the held
+amount subtracts exactly (no wrap). -/
+theorem releaseCore_eq (st : State) (m : Metric) (hh : InRange st.held) :
+    releaseCore st m =
+      if st.held.num < m.num ∨ st.held.size < m.size then ({ st with held := Metric.zero }, [.warn st.held m])
+      else ({ st with held := ⟨st.held.num - m.num, st.held.size - m.size⟩ }, []) := by
+  unfold releaseCore Gen.Semaphore.releaseOver Gen.Semaphore.releaseSubNum Gen.Semaphore.releaseSubSize
+  unfold InRange at hh
+  simp only [Bool.or_eq_true, decide_eq_true_eq]
+  split
+  · rfl
+  · next h =>
+    have e1 : (st.held.num + 4294967296 - m.num % 4294967296) % 4294967296 = st.held.num - m.num := by omega
+    have e2 : (st.held.size + 18446744073709551616 - m.size % 18446744073709551616) % 18446744073709551616 =
+        st.held.size - m.size := by omega
+    rw [e1, e2]
+
+theorem over_release_resets (st : State) (m : Metric) (ord : List Nat) (hh : InRange st.held)
+    (ho : st.held.num < m.num ∨ st.held.size < m.size) :
+    release st m ord = ((broadcast { st with held := Metric.zero } ord).1,
+      .warn st.held m :: (broadcast { st with held := Metric.zero } ord).2) := by
+  unfold release; rw [releaseCore_eq _ _ hh, if_pos ho]; rfl
+
+/-- with nobody waiting, an over-release leaves exactly zero held and one warning -/
+theorem over_release_no_waiters (st : State) (m : Metric) (ord : List Nat) (hh : InRange st.held)
+    (ho : st.held.num < m.num ∨ st.held.size < m.size) (hw : st.waiters = []) :
+    (release st m ord).1.held = Metric.zero ∧ (release st m ord).2 = [.warn st.held m] := by
+  rw [over_release_resets _ _ _ hh ho]
+  unfold broadcast
+  simp only [hw]
+  have : wakeOrder [] ord = [] := by
+    induction ord with
+    | nil => rfl
+    | cons i ord ih => unfold wakeOrder; simpa using ih
+  rw [this]
+  exact ⟨rfl, rfl⟩
+
+/-! ## waking waiters -/
+
+theorem attempt_fields (st : State) (m : Metric) (d : Nat) :
+    (attempt st m d).1.cap = st.cap ∧ (attempt st m d).1.now = st.now ∧ (attempt st m d).1.waiters = st.waiters := by
+  unfold attempt
+  simp only
+  cases tryAcquire st.held st.cap m <;> (simp only; split <;> (try split) <;> exact ⟨rfl, rfl, rfl⟩)
+
+theorem wake_fields (ws : List Waiter) : ∀ st : State,
+    (wake st ws).1.cap = st.cap ∧ (wake st ws).1.now = st.now ∧ (wake st ws).1.waiters = st.waiters := by
+  induction ws with
+  | nil => intro st; exact ⟨rfl, rfl, rfl⟩
+  | cons w ws ih =>
+    intro st
+    have ha := attempt_fields st w.amt w.deadline
+    unfold wake
+    cases h : attempt st w.amt w.deadline with
+    | mk st' r =>
+      rw [h] at ha
+      cases r with
+      | none => simp only; have := ih st'; exact ⟨this.1.trans ha.1, this.2.1.trans ha.2.1, this.2.2.trans ha.2.2⟩
+      | some b => simp only; have := ih st'; exact ⟨this.1.trans ha.1, this.2.1.trans ha.2.1, this.2.2.trans ha.2.2⟩
+
+/-- **General wake lemma**: whatever is woken, the held amount only grows and stays within the
+configured capacity, and every waiter that goes back to sleep has its deadline ahead, is within
+the current bound, and does not fit the final held amount. -/
+theorem wake_general (cap0 : Metric) (hr : InRange cap0) (ws : List Waiter) : ∀ st : State,
+    Le st.cap cap0 → Le st.held cap0 →
+    Le st.held (wake st ws).1.held ∧ Le (wake st ws).1.held cap0 ∧
+    ∀ w ∈ (wake st ws).2.1, w ∈ ws ∧ st.now < w.deadline ∧ Le w.amt st.cap ∧ ¬ Fits (wake st ws).1.held st.cap w.amt := by
+  induction ws with
+  | nil => intro st _ hh; exact ⟨Le.refl _, hh, by intro w hw; cases hw⟩
+  | cons w ws ih =>
+    intro st hc hh
+    have hrh := inRange_of_le hh hr
+    have hrc := inRange_of_le hc hr
+    unfold wake
+    rw [attempt_eq _ _ _ hrh hrc]
+    by_cases hf : Fits st.held st.cap w.amt
+    · rw [if_pos hf]
+      simp only
+      have hle : Le st.held (madd st.held w.amt) := by unfold Le madd; simp
+      have hh' : Le (madd st.held w.amt) cap0 := by
+        unfold Fits at hf; unfold Le madd at *; simp only; omega
+      have := ih { st with held := madd st.held w.amt } hc hh'
+      refine ⟨hle.trans this.1, this.2.1, ?_⟩
+      intro x hx
+      have := this.2.2 x hx
+      exact ⟨List.mem_cons_of_mem _ this.1, this.2.1, this.2.2.1, this.2.2.2⟩
+    · rw [if_neg hf]
+      by_cases hg : w.amt.size > st.cap.size ∨ w.amt.num > st.cap.num ∨ w.deadline ≤ st.now
+      · rw [if_pos hg]
+        simp only
+        have := ih st hc hh
+        refine ⟨this.1, this.2.1, ?_⟩
+        intro x hx
+        have := this.2.2 x hx
+        exact ⟨List.mem_cons_of_mem _ this.1, this.2.1, this.2.2.1, this.2.2.2⟩
+      · rw [if_neg hg]
+        simp only
+        have := ih st hc hh
+        refine ⟨this.1, this.2.1, ?_⟩
+        intro x hx
+        rcases List.mem_cons.mp hx with rfl | hx
+        · refine ⟨List.mem_cons_self, by omega, by unfold Le; omega, not_fits_mono this.1 hf⟩
+        · have := this.2.2 x hx
+          exact ⟨List.mem_cons_of_mem _ this.1, this.2.1, this.2.2.1, this.2.2.2⟩
+
+/-- waking waiters whose deadline is ahead and that are within the bound never refuses anybody:
+each one is granted (`ret id true`) or stays, and nothing else is reported -/
+theorem wake_no_refusal (cap0 : Metric) (hr : InRange cap0) (ws : List Waiter) : ∀ st : State,
+    Le st.cap cap0 → Le st.held cap0 → (∀ w ∈ ws, st.now < w.deadline ∧ Le w.amt st.cap) →
+    (∀ w ∈ ws, Ev.ret w.id true ∈ (wake st ws).2.2 ∨ w ∈ (wake st ws).2.1) ∧
+    (∀ e ∈ (wake st ws).2.2, ∃ w ∈ ws, e = Ev.ret w.id true) := by
+  induction ws with
+  | nil =>
+    intro st _ _ _
+    refine ⟨?_, ?_⟩
+    · intro w hw; cases hw
+    · intro e he; cases he
+  | cons w ws ih =>
+    intro st hc hh hq
+    have hrh := inRange_of_le hh hr
+    have hrc := inRange_of_le hc hr
+    have hqw := hq w List.mem_cons_self
+    unfold wake
+    rw [attempt_eq _ _ _ hrh hrc]
+    by_cases hf : Fits st.held st.cap w.amt
+    · rw [if_pos hf]
+      simp only
+      have hh' : Le (madd st.held w.amt) cap0 := by
+        unfold Fits at hf; unfold Le madd at *; simp only; omega
+      have := ih { st with held := madd st.held w.amt } hc hh' (fun x hx => hq x (List.mem_cons_of_mem _ hx))
+      constructor
+      · intro x hx
+        rcases List.mem_cons.mp hx with rfl | hx
+        · exact Or.inl List.mem_cons_self
+        · rcases this.1 x hx with h | h
+          · exact Or.inl (List.mem_cons_of_mem _ h)
+          · exact Or.inr h
+      · intro e he
+        rcases List.mem_cons.mp he with rfl | he
+        · exact ⟨w, List.mem_cons_self, rfl⟩
+        · obtain ⟨x, hx, rfl⟩ := this.2 e he
+          exact ⟨x, List.mem_cons_of_mem _ hx, rfl⟩
+    · rw [if_neg hf, if_neg (by unfold Le at hqw; omega)]
+      simp only
+      have := ih st hc hh (fun x hx => hq x (List.mem_cons_of_mem _ hx))
+      constructor
+      · intro x hx
+        rcases List.mem_cons.mp hx with rfl | hx
+        · exact Or.inr List.mem_cons_self
+        · rcases this.1 x hx with h | h
+          · exact Or.inl h
+          · exact Or.inr (List.mem_cons_of_mem _ h)
+      · intro e he
+        obtain ⟨x, hx, rfl⟩ := this.2 e he
+        exact ⟨x, List.mem_cons_of_mem _ hx, rfl⟩
+
+/-- waking waiters none of which fits (and all within the bound) changes nothing: exactly those
+whose deadline has been reached return `false`, the others go back to sleep -/
+theorem wake_nofit (ws : List Waiter) (st : State) (hh : InRange st.held) (hc : InRange st.cap)
+    (hq : ∀ w ∈ ws, Le w.amt st.cap ∧ ¬ Fits st.held st.cap w.amt) :
+    wake st ws = (st, ws.filter (fun w => decide (st.now < w.deadline)),
+      (ws.filter (fun w => decide (w.deadline ≤ st.now))).map (fun w => Ev.ret w.id false)) := by
+  induction ws with
+  | nil => rfl
+  | cons w ws ih =>
+    have hw := hq w List.mem_cons_self
+    have ih := ih (fun x hx => hq x (List.mem_cons_of_mem _ hx))
+    unfold wake
+    rw [attempt_eq _ _ _ hh hc, if_neg hw.2]
+    by_cases hd : w.deadline ≤ st.now
+    · rw [if_pos (by omega)]
+      simp only
+      rw [ih, List.filter_cons, List.filter_cons]
+      simp [hd, Nat.not_lt.mpr hd]
+    · rw [if_neg (by unfold Le at hw; omega)]
+      simp only
+      rw [ih, List.filter_cons, List.filter_cons]
+      simp [hd, Nat.lt_of_not_le hd]
+
+theorem mem_wakeOrder (ord : List Nat) : ∀ (ws : List Waiter) (w : Waiter), w ∈ wakeOrder ws ord ↔ w ∈ ws := by
+  induction ord with
+  | nil => intro ws w; rfl
+  | cons i ord ih =>
+    intro ws w
+    unfold wakeOrder
+    cases h : ws.find? (fun x => x.id == i) with
+    | none => exact ih ws w
+    | some x =>
+      have hx := List.mem_of_find?_eq_some h
+      simp only [List.mem_cons, ih]
+      rw [(List.perm_cons_erase hx).mem_iff, List.mem_cons]
+
+/-! ## the invariant of all operation sequences -/
+
+structure Inv (cap0 : Metric) (st : State) : Prop where
+  range : InRange cap0
+  /-- the bound is the configured one, or zero after Terminate -/
+  capc : st.cap = cap0 ∨ st.cap = Metric.zero
+  held : Le st.held cap0
+  /-- quiescence: every blocked request has its deadline ahead, is within the bound and does not fit -/
+  q : ∀ w ∈ st.waiters, st.now < w.deadline ∧ Le w.amt st.cap ∧ ¬ Fits st.held st.cap w.amt
+
+theorem cap_le {cap0 : Metric} {st : State} (h : st.cap = cap0 ∨ st.cap = Metric.zero) : Le st.cap cap0 := by
+  rcases h with e | e <;> rw [e]
+  · exact Le.refl _
+  · exact ⟨Nat.zero_le _, Nat.zero_le _⟩
+
+theorem inv_new (cap : Metric) (hr : InRange cap) : Inv cap (new cap) :=
+  ⟨hr, Or.inl rfl, ⟨Nat.zero_le _, Nat.zero_le _⟩, by intro w hw; cases hw⟩
+
+theorem inv_broadcast (cap0 : Metric) (st : State) (ord : List Nat) (hr : InRange cap0)
+    (hc : st.cap = cap0 ∨ st.cap = Metric.zero) (hh : Le st.held cap0) : Inv cap0 (broadcast st ord).1 := by
+  have f := wake_fields (wakeOrder st.waiters ord) st
+  have g := wake_general cap0 hr (wakeOrder st.waiters ord) st (cap_le hc) hh
+  unfold broadcast
+  refine ⟨hr, ?_, g.2.1, ?_⟩
+  · show (wake st (wakeOrder st.waiters ord)).1.cap = cap0 ∨ _
+    rw [f.1]; exact hc
+  · intro w hw
+    have := g.2.2 w hw
+    show (wake st (wakeOrder st.waiters ord)).1.now < _ ∧ Le _ (wake st (wakeOrder st.waiters ord)).1.cap ∧
+      ¬ Fits _ (wake st (wakeOrder st.waiters ord)).1.cap _
+    rw [f.1, f.2.1]
+    exact ⟨this.2.1, this.2.2.1, this.2.2.2⟩
+
+theorem acquire_eq (st : State) (id : Nat) (m : Metric) (t : Nat) (hh : InRange st.held) (hc : InRange st.cap) :
+    acquire st id m t =
+      if Fits st.held st.cap m then ({ st with held := madd st.held m }, [.ret id true])
+      else if m.size > st.cap.size ∨ m.num > st.cap.num ∨ t = 0 then (st, [.ret id false])
+      else ({ st with waiters := st.waiters ++ [⟨id, m, st.now + t⟩] }, []) := by
+  unfold acquire
+  rw [attempt_eq _ _ _ hh hc]
+  by_cases hf : Fits st.held st.cap m
+  · rw [if_pos hf, if_pos hf]
+  · rw [if_neg hf, if_neg hf]
+    by_cases hg : m.size > st.cap.size ∨ m.num > st.cap.num ∨ t = 0
+    · rw [if_pos hg, if_pos (by omega)]
+    · rw [if_neg hg, if_neg (by omega)]
+
+theorem releaseCore_fields (st : State) (m : Metric) (hh : InRange st.held) :
+    (releaseCore st m).1.cap = st.cap ∧ (releaseCore st m).1.now = st.now ∧ (releaseCore st m).1.waiters = st.waiters ∧
+    Le (releaseCore st m).1.held st.held ∧ ∀ e ∈ (releaseCore st m).2, e = Ev.warn st.held m := by
+  rw [releaseCore_eq _ _ hh]
+  split
+  · exact ⟨rfl, rfl, rfl, ⟨Nat.zero_le _, Nat.zero_le _⟩, by intro e he; simpa using he⟩
+  · exact ⟨rfl, rfl, rfl, ⟨Nat.sub_le _ _, Nat.sub_le _ _⟩, by intro e he; cases he⟩
+
+theorem inv_step (cap0 : Metric) (st : State) (op : Op) (h : Inv cap0 st) : Inv cap0 (step st op).1 := by
+  have hrh := inRange_of_le h.held h.range
+  have hrc := inRange_of_le (cap_le h.capc) h.range
+  cases op with
+  | acquire id m t =>
+    show Inv cap0 (acquire st id m t).1
+    rw [acquire_eq _ _ _ _ hrh hrc]
+    by_cases hf : Fits st.held st.cap m
+    · rw [if_pos hf]
+      have hle : Le st.held (madd st.held m) := by unfold Le madd; simp
+      refine ⟨h.range, h.capc, ?_, ?_⟩
+      · have := cap_le h.capc
+        unfold Fits at hf; unfold Le madd at *; simp only; omega
+      · intro w hw
+        have := h.q w hw
+        exact ⟨this.1, this.2.1, not_fits_mono hle this.2.2⟩
+    · rw [if_neg hf]
+      by_cases hg : m.size > st.cap.size ∨ m.num > st.cap.num ∨ t = 0
+      · rw [if_pos hg]; exact h
+      · rw [if_neg hg]
+        refine ⟨h.range, h.capc, h.held, ?_⟩
+        intro w hw
+        rcases List.mem_append.mp hw with hw | hw
+        · exact h.q w hw
+        · simp at hw; subst hw
+          exact ⟨by show st.now < st.now + t; omega, by show Le m st.cap; unfold Le; omega, hf⟩
+  | tryAcq id m =>
+    show Inv cap0 (tryAcq st id m).1
+    rw [tryAcq_iff _ _ _ hrh hrc]
+    by_cases hf : Fits st.held st.cap m
+    · rw [if_pos hf]
+      have hle : Le st.held (madd st.held m) := by unfold Le madd; simp
+      refine ⟨h.range, h.capc, ?_, ?_⟩
+      · have := cap_le h.capc
+        unfold Fits at hf; unfold Le madd at *; simp only; omega
+      · intro w hw
+        have := h.q w hw
+        exact ⟨this.1, this.2.1, not_fits_mono hle this.2.2⟩
+    · rw [if_neg hf]; exact h
+  | release m ord =>
+    have f := releaseCore_fields st m hrh
+    show Inv cap0 (broadcast (releaseCore st m).1 ord).1
+    exact inv_broadcast cap0 _ ord h.range (by rw [f.1]; exact h.capc) (f.2.2.2.1.trans h.held)
+  | tick t =>
+    show Inv cap0 (tick st t).1
+    unfold tick
+    simp only
+    split
+    · exact inv_broadcast cap0 _ [] h.range h.capc h.held
+    · next hn =>
+      refine ⟨h.range, h.capc, h.held, ?_⟩
+      intro w hw
+      have := h.q w hw
+      refine ⟨?_, this.2.1, this.2.2⟩
+      show st.now + t < w.deadline
+      apply Nat.lt_of_not_le
+      intro hle
+      apply hn
+      exact List.any_eq_true.mpr ⟨w, hw, by simpa using hle⟩
+  | terminate =>
+    exact inv_broadcast cap0 _ [] h.range (Or.inr rfl) h.held
+
+theorem inv_run (cap0 : Metric) (st : State) (ops : List Op) (h : Inv cap0 st) : Inv cap0 (run st ops).1 := by
+  induction ops generalizing st with
+  | nil => exact h
+  | cons op ops ih => exact ih _ (inv_step cap0 st op h)
+
+/-! ## the clauses of the property, over all operation sequences -/
+
+/-- **The held amount never exceeds the capacity**: after any sequence of acquire / try / release /
+tick / terminate operations (any amounts, timeouts, wake orders) on a semaphore of capacity `cap`,
+both components of the held amount are at most the configured capacity (so they never wrap). -/
+theorem held_never_exceeds_capacity (cap : Metric) (hr : InRange cap) (ops : List Op) :
+    (run (new cap) ops).1.held.num ≤ cap.num ∧ (run (new cap) ops).1.held.size ≤ cap.size :=
+  (inv_run cap _ ops (inv_new cap hr)).held
+
+/-- **No fitting request is ever left waiting** ("granted at once or as soon as enough is
+released"): after any operation sequence, every request still blocked does not fit the held amount,
+its deadline is still ahead, and it is within the current bound. -/
+theorem no_fitting_request_left_waiting (cap : Metric) (hr : InRange cap) (ops : List Op) :
+    let st := (run (new cap) ops).1
+    ∀ w ∈ st.waiters, ¬ Fits st.held st.cap w.amt ∧ st.now < w.deadline ∧ Le w.amt st.cap := by
+  intro st w hw
+  have := (inv_run cap _ ops (inv_new cap hr)).q w hw
+  exact ⟨this.2.2, this.1, this.2.1⟩
+
+/-- **A release grants or keeps, never refuses**: at a `Release` (any amount, any wake order) in
+any reachable state, every blocked request either returns `true` at this very release or stays
+blocked — and then it does not fit what is held after the release; no request returns `false`. -/
+theorem release_grants_what_fits (cap : Metric) (hr : InRange cap) (ops : List Op) (m : Metric) (ord : List Nat) :
+    let st := (run (new cap) ops).1
+    let r := release st m ord
+    (∀ w ∈ st.waiters, Ev.ret w.id true ∈ r.2 ∨ (w ∈ r.1.waiters ∧ ¬ Fits r.1.held r.1.cap w.amt)) ∧
+    (∀ id, Ev.ret id false ∉ r.2) := by
+  intro st r
+  have h := inv_run cap _ ops (inv_new cap hr)
+  have hrh := inRange_of_le h.held h.range
+  have f := releaseCore_fields st m hrh
+  have h' : Inv cap r.1 := inv_step cap st (.release m ord) h
+  have hq : ∀ w ∈ wakeOrder (releaseCore st m).1.waiters ord,
+      (releaseCore st m).1.now < w.deadline ∧ Le w.amt (releaseCore st m).1.cap := by
+    intro w hw
+    rw [mem_wakeOrder, f.2.2.1] at hw
+    rw [f.1, f.2.1]
+    exact ⟨(h.q w hw).1, (h.q w hw).2.1⟩
+  have nr := wake_no_refusal cap hr (wakeOrder (releaseCore st m).1.waiters ord) (releaseCore st m).1
+    (by rw [f.1]; exact cap_le h.capc) (f.2.2.2.1.trans h.held) hq
+  constructor
+  · intro w hw
+    have hw' : w ∈ wakeOrder (releaseCore st m).1.waiters ord := by rw [mem_wakeOrder, f.2.2.1]; exact hw
+    rcases nr.1 w hw' with h1 | h1
+    · exact Or.inl (List.mem_append_right _ h1)
+    · exact Or.inr ⟨h1, (h'.q w h1).2.2⟩
+  · intro id hid
+    rcases List.mem_append.mp hid with h1 | h1
+    · have := f.2.2.2.2 _ h1; cases this
+    · obtain ⟨w, _, e⟩ := nr.2 _ h1; cases e
+
+/-- the first request in the wake order that fits what is left after the release is granted at
+that release -/
+theorem release_grants_first (cap : Metric) (hr : InRange cap) (ops : List Op) (m : Metric) (ord : List Nat)
+    (w : Waiter) (rest : List Waiter) :
+    let st := (run (new cap) ops).1
+    wakeOrder st.waiters ord = w :: rest → Fits (releaseCore st m).1.held st.cap w.amt →
+    Ev.ret w.id true ∈ (release st m ord).2 := by
+  intro st hw hf
+  have h := inv_run cap _ ops (inv_new cap hr)
+  have hrh := inRange_of_le h.held h.range
+  have f := releaseCore_fields st m hrh
+  apply List.mem_append_right
+  show Ev.ret w.id true ∈ (wake (releaseCore st m).1 (wakeOrder (releaseCore st m).1.waiters ord)).2.2
+  rw [f.2.2.1, hw]
+  unfold wake
+  rw [attempt_eq _ _ _ (inRange_of_le (f.2.2.2.1.trans h.held) h.range) (by rw [f.1]; exact inRange_of_le (cap_le h.capc) h.range),
+    if_pos (by rw [f.1]; exact hf)]
+  exact List.mem_cons_self
+
+/-- **A waiter returns false at its deadline** — and only then: when the clock advances by `t` in
+any reachable state, exactly the blocked requests whose deadline is reached return `false`, the
+others stay blocked, nothing else is reported and the held amount is unchanged. -/
+theorem waiter_returns_false_at_deadline (cap : Metric) (hr : InRange cap) (ops : List Op) (t : Nat) :
+    let st := (run (new cap) ops).1
+    let r := tick st t
+    (∀ w ∈ st.waiters, w.deadline ≤ st.now + t → Ev.ret w.id false ∈ r.2) ∧
+    (∀ w ∈ st.waiters, st.now + t < w.deadline → w ∈ r.1.waiters) ∧
+    (∀ e ∈ r.2, ∃ w ∈ st.waiters, w.deadline ≤ st.now + t ∧ e = Ev.ret w.id false) ∧
+    (∀ w ∈ r.1.waiters, w ∈ st.waiters ∧ st.now + t < w.deadline) ∧
+    r.1.held = st.held := by
+  intro st r
+  have h := inv_run cap _ ops (inv_new cap hr)
+  have hrh := inRange_of_le h.held h.range
+  have hrc := inRange_of_le (cap_le h.capc) h.range
+  have hnf := wake_nofit st.waiters { st with now := st.now + t } hrh hrc
+    (fun w hw => ⟨(h.q w hw).2.1, (h.q w hw).2.2⟩)
+  have e : r = tick st t := rfl
+  unfold tick at e
+  simp only at e
+  by_cases hany : (st.waiters.any fun w => decide (w.deadline ≤ st.now + t)) = true
+  · rw [if_pos hany] at e
+    have e2 : r = ({ st with now := st.now + t, waiters := st.waiters.filter (fun w => decide (st.now + t < w.deadline)) },
+        (st.waiters.filter (fun w => decide (w.deadline ≤ st.now + t))).map (fun w => Ev.ret w.id false)) := by
+      rw [e]; unfold broadcast; show (_, _) = _
+      have : wakeOrder st.waiters [] = st.waiters := rfl
+      simp only [this]
+      rw [hnf]
+    rw [e2]
+    refine ⟨?_, ?_, ?_, ?_, rfl⟩
+    · intro w hw hd
+      exact List.mem_map.mpr ⟨w, List.mem_filter.mpr ⟨hw, by simpa using hd⟩, rfl⟩
+    · intro w hw hd
+      exact List.mem_filter.mpr ⟨hw, by simpa using hd⟩
+    · intro e he
+      obtain ⟨w, hw, rfl⟩ := List.mem_map.mp he
+      have := List.mem_filter.mp hw
+      exact ⟨w, this.1, by simpa using this.2, rfl⟩
+    · intro w hw
+      have := List.mem_filter.mp hw
+      exact ⟨this.1, by simpa using this.2⟩
+  · rw [if_neg hany] at e
+    rw [e]
+    have hno : ∀ w ∈ st.waiters, st.now + t < w.deadline := by
+      intro w hw
+      apply Nat.lt_of_not_le
+      intro hle
+      exact hany (List.any_eq_true.mpr ⟨w, hw, by simpa using hle⟩)
+    refine ⟨?_, ?_, ?_, ?_, rfl⟩
+    · intro w hw hd; have := hno w hw; omega
+    · intro w hw _; exact hw
+    · intro e he; cases he
+    · intro w hw; exact ⟨hw, hno w hw⟩
+
+theorem nonzero_pos (m : Metric) (h : m ≠ Metric.zero) : m.num > 0 ∨ m.size > 0 := by
+  cases m with
+  | mk n s =>
+    by_cases hn : n = 0
+    · by_cases hs : s = 0
+      · subst hn; subst hs; exact absurd rfl h
+      · exact Or.inr (Nat.pos_of_ne_zero hs)
+    · exact Or.inl (Nat.pos_of_ne_zero hn)
+
+theorem wake_terminated (cap0 : Metric) (hr : InRange cap0) (ws : List Waiter) : ∀ st : State,
+    st.cap = Metric.zero → Le st.held cap0 →
+    ∀ w ∈ ws, w.amt ≠ Metric.zero → Ev.ret w.id false ∈ (wake st ws).2.2 := by
+  induction ws with
+  | nil => intro st _ _ w hw; cases hw
+  | cons x ws ih =>
+    intro st hc hh w hw hne
+    have hrh := inRange_of_le hh hr
+    have hrc : InRange st.cap := by rw [hc]; exact ⟨by decide, by decide⟩
+    unfold wake
+    rw [attempt_eq _ _ _ hrh hrc]
+    by_cases hf : Fits st.held st.cap x.amt
+    · rw [if_pos hf]
+      simp only
+      rcases List.mem_cons.mp hw with rfl | hw
+      · exfalso
+        have := nonzero_pos _ hne
+        unfold Fits at hf; rw [hc] at hf; unfold Metric.zero at hf; simp only at hf; omega
+      · have hh' : Le (madd st.held x.amt) cap0 := by
+          unfold Fits at hf; rw [hc] at hf; unfold Metric.zero at hf
+          unfold Le madd at *; simp only at *; omega
+        exact List.mem_cons_of_mem _ (ih { st with held := madd st.held x.amt } hc hh' w hw hne)
+    · rw [if_neg hf]
+      by_cases hg : x.amt.size > st.cap.size ∨ x.amt.num > st.cap.num ∨ x.deadline ≤ st.now
+      · rw [if_pos hg]
+        simp only
+        rcases List.mem_cons.mp hw with rfl | hw
+        · exact List.mem_cons_self
+        · exact List.mem_cons_of_mem _ (ih st hc hh w hw hne)
+      · rw [if_neg hg]
+        simp only
+        rcases List.mem_cons.mp hw with rfl | hw
+        · exfalso
+          have := nonzero_pos _ hne
+          rw [hc] at hg; unfold Metric.zero at hg; simp only at hg; omega
+        · exact ih st hc hh w hw hne
+
+/-- **After Terminate blocked callers return**: at `Terminate` in any reachable state, the bound
+becomes zero, every blocked non-empty request returns `false`, and only empty requests (if any)
+can still be blocked. -/
+theorem terminate_releases_waiters (cap : Metric) (hr : InRange cap) (ops : List Op) :
+    let st := (run (new cap) ops).1
+    let r := terminate st
+    r.1.cap = Metric.zero ∧
+    (∀ w ∈ st.waiters, w.amt ≠ Metric.zero → Ev.ret w.id false ∈ r.2) ∧
+    (∀ w ∈ r.1.waiters, w.amt = Metric.zero) := by
+  intro st r
+  have h := inv_run cap _ ops (inv_new cap hr)
+  have h' : Inv cap r.1 := inv_step cap st .terminate h
+  have f := wake_fields (wakeOrder st.waiters []) { st with cap := Metric.zero }
+  have hc : r.1.cap = Metric.zero := f.1
+  refine ⟨hc, ?_, ?_⟩
+  · intro w hw hne
+    exact wake_terminated cap hr st.waiters { st with cap := Metric.zero } rfl h.held w hw hne
+  · intro w hw
+    have := (h'.q w hw).2.1
+    rw [hc] at this
+    unfold Le Metric.zero at this
+    cases w with
+    | mk id amt d =>
+      cases amt with
+      | mk n s =>
+        have h1 : n = 0 := Nat.le_zero.mp this.1
+        have h2 : s = 0 := Nat.le_zero.mp this.2
+        subst h1; subst h2; rfl
+
+/-- **After Terminate every non-empty request is refused** at once (Acquire with any timeout, and
+TryAcquire), in any state whose bound is zero. -/
+theorem refused_after_terminate (st : State) (id : Nat) (m : Metric) (t : Nat)
+    (hh : InRange st.held) (hc : st.cap = Metric.zero) (hne : m ≠ Metric.zero) :
+    acquire st id m t = (st, [.ret id false]) ∧ tryAcq st id m = (st, [.ret id false]) := by
+  have hrc : InRange st.cap := by rw [hc]; exact ⟨by decide, by decide⟩
+  have hp := nonzero_pos m hne
+  have hgt : m.num > st.cap.num ∨ m.size > st.cap.size := by rw [hc]; exact hp
+  refine ⟨above_capacity_refused st id m t hh hrc hgt, ?_⟩
+  rw [tryAcq_iff _ _ _ hh hrc, if_neg]
+  unfold Fits; omega
+
+theorem broadcast_cap (st : State) (ord : List Nat) : (broadcast st ord).1.cap = st.cap :=
+  (wake_fields (wakeOrder st.waiters ord) st).1
+
+theorem acquire_cap (st : State) (id : Nat) (m : Metric) (t : Nat) : (acquire st id m t).1.cap = st.cap := by
+  have f := attempt_fields st m (st.now + t)
+  unfold acquire
+  split
+  · next st' r h => rw [h] at f; exact f.1
+  · next st' h => rw [h] at f; exact f.1
+
+theorem tryAcq_cap (st : State) (id : Nat) (m : Metric) : (tryAcq st id m).1.cap = st.cap := by
+  unfold tryAcq; split <;> rfl
+
+/-- (kept free of `rfl` on the uint64 subtraction terms: the kernel must never unfold `x % 2^64`) -/
+theorem releaseCore_shape (st : State) (m : Metric) : ∃ h evs, releaseCore st m = ({ st with held := h }, evs) := by
+  unfold releaseCore
+  split
+  · exact ⟨_, _, rfl⟩
+  · exact ⟨_, _, rfl⟩
+
+theorem releaseCore_cap (st : State) (m : Metric) : (releaseCore st m).1.cap = st.cap := by
+  obtain ⟨h, evs, e⟩ := releaseCore_shape st m
+  rw [e]
+
+theorem tick_cap (st : State) (t : Nat) : (tick st t).1.cap = st.cap := by
+  unfold tick; simp only; split
+  · rw [broadcast_cap]
+  · rfl
+
+/-- … and the bound stays zero whatever happens afterwards -/
+theorem terminated_forever (st : State) (op : Op) (hc : st.cap = Metric.zero) : (step st op).1.cap = Metric.zero := by
+  cases op with
+  | acquire id m t => exact (acquire_cap st id m t).trans hc
+  | tryAcq id m => exact (tryAcq_cap st id m).trans hc
+  | release m ord =>
+    show (broadcast (releaseCore st m).1 ord).1.cap = _
+    rw [broadcast_cap, releaseCore_cap]; exact hc
+  | tick t => exact (tick_cap st t).trans hc
+  | terminate => show (broadcast _ []).1.cap = _; rw [broadcast_cap]
+
+/-! ## negative witnesses: the behaviour before the `fix:` commit (DESIGN §7 D10) -/
+
+/-- `tryAcquire` as it was: `tmp.Num += metric.Num` without the overflow guard -/
+def tryAcquirePreFix (held cap m : Metric) : Option Metric :=
+  let n := Gen.Semaphore.addNum held.num m.num
+  let s := Gen.Semaphore.addSize held.size m.size
+  if Gen.Semaphore.exceedsCond n cap.num s cap.size then none else some ⟨n, s⟩
+
+/-- D10(a): with 10 held out of 100, a request of 2^32-5 events was granted and the held amount
+became 5 — the sum wrapped around -/
+example : tryAcquirePreFix ⟨10, 0⟩ ⟨100, 1000⟩ ⟨4294967291, 0⟩ = some ⟨5, 0⟩ := by decide
+
+/-- the repaired code refuses it -/
+example : tryAcquire ⟨10, 0⟩ ⟨100, 1000⟩ ⟨4294967291, 0⟩ = none := by decide
+
+/-- the same for the uint64 component -/
+example : tryAcquirePreFix ⟨0, 7⟩ ⟨100, 1000⟩ ⟨1, 18446744073709551615⟩ = some ⟨1, 6⟩ ∧
+    tryAcquire ⟨0, 7⟩ ⟨100, 1000⟩ ⟨1, 18446744073709551615⟩ = none := by decide
+
+/-- D10(b): before the fix nothing woke a waiter at its deadline (no timer broadcast): the clock
+just advanced -/
+def tickPreFix (st : State) (t : Nat) : State × List Ev := ({ st with now := st.now + t }, [])
+
+/-- a request of 8 with 5 of 10 held and a timeout of 100: long after the deadline it was still
+blocked; the repaired code returns `false` at the deadline -/
+example :
+    let st := (run (new ⟨10, 1000⟩) [.acquire 1 ⟨5, 50⟩ 100, .acquire 2 ⟨8, 80⟩ 100]).1
+    (tickPreFix st 2000).1.waiters.length = 1 ∧ (tickPreFix st 2000).2 = [] ∧
+    (tick st 100).2 = [.ret 2 false] ∧ (tick st 100).1.waiters = [] := by decide
+
+/-! ## non-vacuity: a reachable state with a waiter, granted at the release that makes room -/
+
+example :
+    (run (new ⟨10, 1000⟩) [.acquire 1 ⟨5, 50⟩ 30, .acquire 2 ⟨8, 80⟩ 30, .tick 10, .release ⟨2, 20⟩ [],
+      .release ⟨1, 10⟩ [], .acquire 3 ⟨11, 1⟩ 30, .release ⟨99, 0⟩ [], .terminate, .acquire 4 ⟨1, 1⟩ 30]).2 =
+    [[.ret 1 true], [], [], [], [.ret 2 true], [.ret 3 false], [.warn ⟨10, 100⟩ ⟨99, 0⟩], [], [.ret 4 false]] := by decide
+
+example : InRange ⟨10, 1000⟩ := ⟨by decide, by decide⟩
+
 end C30
